@@ -88,8 +88,33 @@ pub fn parse_attlist_defaults(text: &str) -> Vec<(String, String, String)> {
     out
 }
 
+/// what enumerating the entity and notation maps of the document type reports, in enumeration order
+fn dtd_maps_sig(d: &XmlDocument) -> String {
+    use xml_dom::{DocumentType, Entity, Notation};
+    let mut s = String::new();
+    if let Some(dt) = d.doc_type() {
+        let ents = dt.entities();
+        for i in 0..ents.length() {
+            if let Some(e) = ents.item(i) {
+                s.push_str(&format!("|E{}:{}:{:?}:{:?}:{:?}", i, e.node_name(), e.public_id(), e.system_id(), e.notation_name()));
+            }
+        }
+        for e in ents.iter() {
+            s.push_str(&format!("|e:{}", e.node_name()));
+        }
+        let nots = dt.notations();
+        for i in 0..nots.length() {
+            if let Some(n) = nots.item(i) {
+                s.push_str(&format!("|N{}:{}:{:?}:{:?}", i, n.node_name(), n.public_id(), n.system_id()));
+            }
+        }
+    }
+    s
+}
+
 fn sig_of(d: &XmlDocument) -> String {
     let mut s = format!("{}", d);
+    s.push_str(&dtd_maps_sig(d));
     let mut stack = vec![d.as_node()];
     let mut guard = 0;
     while let Some(n) = stack.pop() {
@@ -740,6 +765,9 @@ impl World {
                             fails.push(Fail::new("C13", "effect", format!("{} must have no effect here but: {}", step.op_name(), d)));
                         }
                     }
+                    if let Some(d) = self.only_named_attribute_replaced(step, &pre_raw, &post_raw) {
+                        fails.push(Fail::new("C13", "effect", format!("after {}: {}", step.op_name(), d)));
+                    }
                     if let Some(d) = oracle::compare(&post_raw, &self.model.expect_all()) {
                         fails.push(Fail::new("C13", "effect", format!("after {}: {}", step.op_name(), d)));
                         if chardata {
@@ -825,6 +853,70 @@ impl World {
         };
         self.model.clear_slot(out);
         self.real.clear(out);
+    }
+
+    /// DOM Level 1: setting an attribute replaces at most the attribute *of that name*; every other
+    /// attribute of the element stays.  Judged on what the implementation reports before and after
+    /// (names as written, `prefix:local`), independent of how the model identifies attributes.
+    fn only_named_attribute_replaced(&self, step: &Step, pre: &ObsMap, post: &ObsMap) -> Option<String> {
+        let (el_mid, given): (Mid, Option<String>) = match &step.op {
+            Op::SetAttribute { el, name, .. } => (self.model.node_slot(*el)?, Some(name.clone())),
+            Op::SetAttributeNode { el, .. } => (self.model.node_slot(*el)?, None),
+            Op::MapSetNamedItem { map, .. } => match self.model.slot(*map) {
+                Some(MSlot::Map(e)) => (*e, None),
+                _ => return None,
+            },
+            _ => return None,
+        };
+        let key = self.model.key(el_mid)?;
+        let before = pre.get(&key)?;
+        let after = post.get(&key)?;
+        let new_q = match given {
+            Some(n) => n,
+            None => after.attrs.iter().find(|a| a.key.id != 0 && !before.attrs.iter().any(|b| b.key == a.key)).map(|a| a.qname.clone())?,
+        };
+        for b in &before.attrs {
+            if b.key.id == 0 || after.attrs.iter().any(|a| a.key == b.key) {
+                continue;
+            }
+            if b.qname != new_q && !b.qname.is_empty() {
+                return Some(format!("setting attribute {:?} removed attribute {:?} of {} (DOM Level 1 replaces only an attribute of the same name)", new_q, b.qname, key));
+            }
+        }
+        None
+    }
+
+    /// a namespace declaration that was attached to an element: the library does not list it among the
+    /// attributes; the model stops tracking the node and every handle to it is dropped
+    fn forget_nsdecl(&mut self, a: Mid, out: S) {
+        // the declaration and the pieces of its value
+        let mut gone = vec![a];
+        let mut i = 0;
+        while i < gone.len() {
+            let kids = self.model.nodes[gone[i]].children.clone();
+            gone.extend(kids);
+            i += 1;
+        }
+        for i in 0..self.model.slots.len() {
+            let hit = match &self.model.slots[i] {
+                Some(MSlot::Node(m)) => gone.contains(m),
+                Some(MSlot::Vec(v, _)) => v.iter().any(|m| gone.contains(m)),
+                Some(MSlot::List(m)) | Some(MSlot::Map(m)) => gone.contains(m),
+                Some(MSlot::Run(v)) => v.iter().any(|m| gone.contains(m)),
+                _ => false,
+            };
+            if hit {
+                self.model.slots[i] = None;
+                self.real.clear(i);
+            }
+        }
+        for g in &gone {
+            self.model.nodes[*g].dead = true;
+        }
+        self.model.by_key.retain(|_, m| !gone.contains(m));
+        self.model.clear_slot(out);
+        self.real.clear(out);
+        self.model.gen += 1;
     }
 
     fn new_node(&mut self, kind: Kind, name: &str, data: &str, doc: usize, key: Option<Key>, out: S, fails: &mut Vec<Fail>) -> Option<Mid> {
@@ -976,6 +1068,11 @@ impl World {
             Op::SetAttributeNode { el, attr, out } => {
                 let e = self.model.node_slot(*el).unwrap();
                 let a = self.model.node_slot(*attr).unwrap();
+                if self.model.nodes[a].nsdecl {
+                    self.forget_nsdecl(a, *out);
+                    rep.probes.push("namespace_declaration_attached_as_attribute_node");
+                    return;
+                }
                 if plan.no_effect {
                     // already this element's attribute: either "no change, returns none/itself"
                     self.model.clear_slot(*out);
@@ -1000,6 +1097,11 @@ impl World {
                     _ => return,
                 };
                 let a = self.model.node_slot(*attr).unwrap();
+                if self.model.nodes[a].nsdecl {
+                    self.forget_nsdecl(a, *out);
+                    rep.probes.push("namespace_declaration_attached_as_attribute_node");
+                    return;
+                }
                 if plan.no_effect {
                     self.model.clear_slot(*out);
                     if let Some(k) = rkey {
@@ -1108,7 +1210,15 @@ impl World {
                 }
             }
             Op::CreateAttr { doc, name, out } => {
-                self.new_node(Kind::Attr, local_of(name), "", *doc, rkey, *out, fails);
+                let m = self.new_node(Kind::Attr, local_of(name), "", *doc, rkey, *out, fails);
+                if let Some(m) = m {
+                    if name == "xmlns" || name.starts_with("xmlns:") {
+                        self.model.nodes[m].nsdecl = true;
+                    }
+                    if let Some((p, _)) = name.split_once(':') {
+                        self.model.nodes[m].prefix = Some(p.to_string());
+                    }
+                }
             }
             Op::CreateEntRef { doc, name, out } => {
                 let v = self.model.entity_value(*doc, name);
@@ -1502,6 +1612,16 @@ impl World {
             Op::Restart { .. } => {}
             Op::DtMap { .. } => {}
             Op::Reparse { doc } => {
+                // reading the maps of the document type twice gives the same answer (no edit in between)
+                let live = self.real.docs[*doc].dom.clone();
+                match (guarded(|| dtd_maps_sig(&live)), guarded(|| dtd_maps_sig(&live))) {
+                    (Ok(a), Ok(b)) => {
+                        if a != b {
+                            fails.push(Fail::new("C19", "read-unstable", format!("enumerating the entities / notations of the document type twice gives {:?} and then {:?}", a, b)));
+                        }
+                    }
+                    (Err(p), _) | (_, Err(p)) => fails.push(Fail::new("C19", "read-unstable", format!("enumerating the maps of the document type panicked: {}", p))),
+                }
                 let text = self.real.docs[*doc].text.clone();
                 let expanded = self.real.docs[*doc].expanded;
                 match parse_doc(&text, expanded) {
